@@ -325,7 +325,7 @@ theorem live_session_grants_its_token (st : St) (r : Req) (ar : Bool) (id : Nat)
       ⟨{ st with sessions := refreshSession st.sessions id (st.now + sessionTTL) }, .token (some s.tok), false, none⟩ := by
   have hcs : checkSessionCookie st r =
       ({ st with sessions := refreshSession st.sessions id (st.now + sessionTTL) }, some s.tok) := by
-    unfold checkSessionCookie
+    rw [checkSessionCookie_eq]
     simp only [hc, hf]
     rw [if_neg (by omega)]
   simp [checkAuth, hdev, hb, hk, hcs]
@@ -345,9 +345,9 @@ theorem bad_key_or_cookie_is_ignored (st : St) (r : Req) :
     · simp [checkAPIKey, h1, h2]
     · simp [checkAPIKey, h1, h2, h3, h4]
   · rintro (h | ⟨id, h1, h2⟩ | ⟨id, s, h1, h2, h3⟩)
-    · simp [checkSessionCookie, h]
-    · simp [checkSessionCookie, h1, h2]
-    · simp [checkSessionCookie, h1, h2, h3]
+    · simp [checkSessionCookie_eq, h]
+    · simp [checkSessionCookie_eq, h1, h2]
+    · simp [checkSessionCookie_eq, h1, h2, h3]
 
 /-- With no usable key and no live session the registered authenticator decides: its token is used and a
     session is created for it; nil means anonymous; an internal failure aborts with 500; a denial aborts
@@ -549,8 +549,10 @@ theorem session_cookie_grants_an_authenticator_token (h : List Event) (r : Req) 
   subst ht
   exact (sessions_come_from_authenticator_and_expire h s hmem).1
 
-/-- Reset (auth/reset) and expiry are final: a deleted session id is unknown afterwards, and an expired
-    session grants nothing and is not refreshed. -/
+/-- Reset (auth/reset) and expiry are final, one step: a deleted session id is unknown afterwards, and an
+    expired session grants nothing and is not refreshed (the state is returned untouched, so the next
+    presentation finds it expired again). The form over whole histories with repeated presentations is
+    `dead_session_stays_dead` / `expired_or_reset_session_never_grants_again` below. -/
 theorem logout_and_expiry_are_final (st : St) (r : Req) (id : Nat) (hc : r.cookie = some id) :
     checkSessionCookie (deleteSession st id) r = (deleteSession st id, none) ∧
     (∀ s, findSession st.sessions id = some s → st.now > s.validUntil → checkSessionCookie st r = (st, none)) := by
@@ -558,9 +560,114 @@ theorem logout_and_expiry_are_final (st : St) (r : Req) (id : Nat) (hc : r.cooki
   · have : findSession (deleteSession st id).sessions id = none := by
       unfold findSession deleteSession
       simp [List.find?_eq_none]
-    simp [checkSessionCookie, hc, this]
+    simp [checkSessionCookie_eq, hc, this]
   · intro s hf hexp
-    simp [checkSessionCookie, hc, hf, hexp]
+    simp [checkSessionCookie_eq, hc, hf, hexp]
+
+/-- The session part of the model is the source as written (regenerated on every run by
+    `harness/cmd/extract/api.go`, which fails closed on any other shape): `checkSessionCookie`, once the
+    session is found, is `if sess.Expired() { return nil }; sess.Refresh(sessionCookieTTL); return sess.token`
+    — the refresh is reached on the valid path only — and `Expired` is `time.Now().After(validUntil)`,
+    so a session is still live at the expiry instant itself and dead strictly after it. -/
+theorem session_steps_as_written :
+    checkSessionCookieSteps = [.refuseIfExpired, .refresh, .grant] ∧ sessionExpiredStrict = true ∧
+    (∀ now s, sessionExpired now s = true ↔ now > s.validUntil) := by
+  refine ⟨by decide, by decide, sessionExpired_iff⟩
+
+/-- The key import is one critical section of `apiKeysLock` (regenerated from the source on every run):
+    `updateAPIKeys` takes the lock first and holds it to its end, and only then empties the map, reads
+    the `core/apiKeys` option and stores the parsed keys; `checkAPIKey` looks keys up under the same lock
+    (checked by the extractor). So overlapping imports — every config change event runs the hook in its
+    own goroutine — are serialised in the order of their configuration reads, no request sees a half-built
+    map, and the model's atomic `updateAPIKeys` step (`api_keys_reflect_current_config`,
+    `revoked_key_grants_nothing`) is the code: the import that reads the option last also installs last. -/
+theorem key_import_is_one_critical_section :
+    updateAPIKeysOrder = [.lock, .clear, .readConfig, .install] := by decide
+
+/-- Two configuration changes in a row (in particular two whose imports overlap, see above): what the
+    key map holds afterwards is the import of the second value alone — nothing of the first value
+    survives unless the second value configures it too. -/
+theorem later_config_wins (st : St) (cfgA cfgB : List KeyEntry) (k : Bytes) (kt : KeyToken)
+    (hl : (step (step st (.setKeys cfgA)) (.setKeys cfgB)).keys.lookup k = some kt) :
+    ∃ e ∈ cfgB, ∃ n, parseKey n e = .ok k kt := by
+  have hinv : KeysInv (step (step st (.setKeys cfgA)) (.setKeys cfgB)) := updateAPIKeys_inv _
+  obtain ⟨e, he, n, hp⟩ := hinv k kt hl
+  have hsub := updateAPIKeys_cfg_subset { step st (.setKeys cfgA) with cfg := cfgB } e he
+  exact ⟨e, hsub, n, hp⟩
+
+/-- How a session dies (`SessionDead st id`: the id has been handed out and the session map holds no live
+    session under it): by auth/reset; by being unknown to the map although the id was handed out (reset or
+    cleaned earlier); or — in every state reachable from the initial one, where ids are unique — by being
+    found expired, whether or not the cleaner has run since. -/
+theorem how_sessions_die :
+    (∀ st id, id < st.nextId → SessionDead (deleteSession st id) id) ∧
+    (∀ st id, id < st.nextId → findSession st.sessions id = none → SessionDead st id) ∧
+    (∀ (h : List Event) id s, findSession (run St.init h).sessions id = some s →
+      (run St.init h).now > s.validUntil → SessionDead (run St.init h) id) ∧
+    (∀ st id, SessionDead st id → SessionDead (cleanSessions st) id) := by
+  refine ⟨?_, ?_, ?_, ?_⟩
+  · intro st id hid
+    refine ⟨hid, ?_⟩
+    intro s hs he
+    simp [deleteSession] at hs
+    exact absurd he hs.2
+  · intro st id hid hf
+    exact ⟨hid, fun s hs he => absurd he (findSession_none hf s hs)⟩
+  · intro h id s hf hexp
+    have hd := DistinctIds_run h St.init DistinctIds_init
+    have hmem : s ∈ (run St.init h).sessions := by
+      unfold findSession at hf
+      exact List.mem_of_find?_eq_some hf
+    have hsid := findSession_id hf
+    refine ⟨by rw [← hsid]; exact hd.2 s hmem, ?_⟩
+    intro s' hs' he
+    have : s' = s := pairwise_ids_unique hd.1 s' hs' s hmem (by rw [he, hsid])
+    rw [this]; exact hexp
+  · intro st id hd
+    exact SessionDead_step .clean hd
+
+/-- Expiry and reset are final along every history: once a session is dead it stays dead through any
+    sequence of later events — requests presenting its cookie (any number of times, with any other
+    credentials, to any handler), other requests, session creations, the cleaner, resets, clock advances,
+    configuration changes. In particular no request re-arms it. -/
+theorem dead_session_stays_dead (st : St) (id : Nat) (hd : SessionDead st id) (h' : List Event) :
+    SessionDead (run st h') id :=
+  SessionDead_run h' st hd
+
+/-- … and after any such history its cookie is treated like an unknown one: it grants nothing and the
+    state is left untouched (nothing is refreshed). -/
+theorem dead_session_cookie_is_ignored (st : St) (id : Nat) (hd : SessionDead st id) (h' : List Event)
+    (r : Req) (hc : r.cookie = some id) :
+    checkSessionCookie (run st h') r = (run st h', none) :=
+  SessionDead_cookie (SessionDead_run h' st hd) r hc
+
+/-- A session that was once observed expired, reset or cleaned never grants again. For every history `h`
+    from the initial state after which the session `id` is found expired (`now > validUntil`), or is
+    unknown although its id was handed out, every continuation `h'` (which may present the cookie again
+    and again) and every later request `r` carrying that cookie: the cookie grants nothing and refreshes
+    nothing; and if the request carries no other usable credential, a handler runs only if it is public
+    or Dynamic, sees the anonymous token, and the state is unchanged. -/
+theorem expired_or_reset_session_never_grants_again (h h' : List Event) (id : Nat) (r : Req) (t : Token)
+    (hobs : (∃ s, findSession (run St.init h).sessions id = some s ∧ (run St.init h).now > s.validUntil) ∨
+      (id < (run St.init h).nextId ∧ findSession (run St.init h).sessions id = none))
+    (hc : r.cookie = some id) :
+    checkSessionCookie (run St.init (h ++ h')) r = (run St.init (h ++ h'), none) ∧
+    ((run St.init (h ++ h')).dev = false → r.bridge = false → checkAPIKey (run St.init (h ++ h')) r = none →
+      ((run St.init (h ++ h')).authSet = false ∨ r.auth = .nilToken ∨ r.auth = .denied) →
+      (handle (run St.init (h ++ h')) r).2.out = .invoke t →
+      t = anon ∧ (handle (run St.init (h ++ h')) r).1 = run St.init (h ++ h') ∧
+      ∃ hd rm, r.route = .matched (some hd) ∧ effectiveMethod r.method r.acrm = some rm ∧
+        (requiredPermission (some hd) rm = permitAnyone ∨ requiredPermission (some hd) rm = dynamic)) := by
+  have hdead : SessionDead (run St.init h) id := by
+    rcases hobs with ⟨s, hf, hexp⟩ | ⟨hid, hf⟩
+    · exact how_sessions_die.2.2.1 h id s hf hexp
+    · exact how_sessions_die.2.1 _ id hid hf
+  have hck := dead_session_cookie_is_ignored (run St.init h) id hdead h' r hc
+  rw [← run_append] at hck
+  refine ⟨hck, ?_⟩
+  intro hdev hb hk hau hinv
+  obtain ⟨a1, a2, _, a4⟩ := bad_credentials_are_anonymous _ r t hdev hb hk hck hau hinv
+  exact ⟨a1, a2, a4⟩
 
 /-! ### Non-vacuity: concrete requests through the whole decision procedure -/
 
@@ -592,6 +699,23 @@ example : (handle (handle stAuth { base with auth := .token ⟨permitAdmin, perm
     = .invoke ⟨permitAdmin, permitAdmin⟩ := by decide
 example : (handle (step (handle stAuth { base with auth := .token ⟨permitAdmin, permitAdmin⟩ }).1 (.advance 301)) { base with cookie := some 0 }).2.out
     = .status 401 := by decide
+-- an expired session presented again and again (also through a write handler, with the cleaner or other
+-- requests in between): refused every time, never re-armed; the hypotheses of the finality theorems hold
+private def stSess : St := (handle stAuth { base with auth := .token ⟨permitAdmin, permitAdmin⟩ }).1
+private def stExpired : St := step stSess (.advance 301)
+private def pres : Req := { base with cookie := some 0 }
+example : findSession stExpired.sessions 0 = some ⟨0, ⟨permitAdmin, permitAdmin⟩, 300⟩ ∧ stExpired.now = 301 := by decide
+example : SessionDead stExpired 0 := by decide
+example : (handle stExpired pres).2.out = .status 401 ∧ (handle stExpired pres).1.sessions = stExpired.sessions := by decide
+example : (handle (handle stExpired pres).1 pres).2.out = .status 401 := by decide
+example : (handle (run stExpired [.request pres, .advance 10, .request { pres with method := mPOST }, .request base]) pres).2.out
+    = .status 401 := by decide
+example : (handle (run stExpired [.request pres, .clean, .request pres]) pres).2.out = .status 401 := by decide
+-- exactly at the expiry instant the session is still live (and is slid); a reset session is dead at once
+example : (handle (step stSess (.advance 300)) pres).2.out = .invoke ⟨permitAdmin, permitAdmin⟩ := by decide
+example : SessionDead (step stSess (.logout 0)) 0 ∧ (handle (step stSess (.logout 0)) pres).2.out = .status 401 := by decide
+-- a live session is not dead: the finality theorems are not about it
+example : ¬ SessionDead stSess 0 := by decide
 -- dev mode and the bridge
 example : (handle { stAuth with dev := true } { base with method := mPOST }).2.out = .invoke ⟨permitSelf, permitSelf⟩ := by decide
 example : (handle stAuth { base with method := mPOST, bridge := true }).2.out = .invoke ⟨permitAdmin, permitAdmin⟩ := by decide
